@@ -231,3 +231,45 @@ def recursion(cg, funcs):
         if f not in index:
             strong(f)
     return out
+
+
+def path_call_counts(body, loop, pred):
+    """(min, max) number of blocks whose terminator call satisfies pred along any
+    header -> latch path of the loop body (back edges removed; inner cycles make max = inf)."""
+    sc = cfg.succs(body)
+    hdr = loop["header"]
+    blocks = loop["blocks"]
+    latches = {a for (a, _h) in loop["back_edges"]}
+    memo = {}
+    INF = float("inf")
+    onstack = set()
+
+    def w(b):
+        t = body["blocks"][b]["term"]
+        f = cfg.callee_of(t)
+        return 1 if (f is not None and pred(f)) else 0
+
+    def go(b):
+        # returns (min, max) over paths from b to any latch (inclusive), None if no latch reachable
+        if b in memo:
+            return memo[b]
+        if b in onstack:
+            return (0, INF)
+        onstack.add(b)
+        best = None
+        if b in latches:
+            best = (0, 0)
+        for s in sc[b]:
+            if s not in blocks or s == hdr:
+                continue
+            r = go(s)
+            if r is None:
+                continue
+            best = r if best is None else (min(best[0], r[0]), max(best[1], r[1]))
+        onstack.discard(b)
+        if best is not None:
+            best = (best[0] + w(b), best[1] + w(b))
+        memo[b] = best
+        return best
+
+    return go(hdr)
